@@ -189,7 +189,7 @@ template<class Body> inline void run_case(const std::string &name, Body body, co
     };
 #ifdef HX_SYM
     if (!concrete()) { symx::Report &r=symx::report(); size_t v0=r.violations.size(), i0=r.inconclusive.size();
-        symx::Options o; o.max_paths=co.max_paths; o.max_depth=co.max_depth; o.check_reach=co.check_reach; o.max_undecided = thorough() ? co.max_undecided*4 : co.max_undecided; o.budget_s = thorough() ? co.budget_s*6 : co.budget_s;
+        symx::Options o; o.max_paths=co.max_paths; o.max_depth=co.max_depth; o.check_reach=co.check_reach; o.max_undecided = thorough() ? co.max_undecided*2 : co.max_undecided; o.budget_s = thorough() ? co.budget_s*3 : co.budget_s;
         symx::explore(name,guarded,o);
         for (size_t i=v0;i<r.violations.size();++i) r.violations[i].casename=name;
         for (size_t i=i0;i<r.inconclusive.size();++i) r.inconclusive[i]=name+": "+r.inconclusive[i];
